@@ -770,56 +770,58 @@ theorem enter_inv02 {w w2 : World} {v : VehicleId} {next : Act} {L : List Vehicl
         · cases h
         · split at h
           · cases h
-          · simp only [Outcome.bind_eq, Outcome.bind_eq_ok, Outcome.pure_eq] at h
-            obtain ⟨st', henq, s1, h0, s2, h1, h2⟩ := h
-            cases h2
-            obtain ⟨_, hs1, hb1, hv1, _, _, _⟩ := Sim.modifyStation_fields h0
-            obtain ⟨hmem, hid⟩ := station?_some hst
-            refine finish_enter hv1 ?_ (baseStation_same hb1) h1
-            intro veh' hact
-            rw [Inv02On_iff_W] at hinv ⊢
-            have hP : cntP s1 (veh' :: L) = cntP w.sim L := by
-              funext a c; simp [cntP, holdsPlug_congr (baseStation_same hb1), holdsPlug, hact]
-            have hB : cntB (veh' :: L) = cntB L := by funext a; simp [cntB, holdsStall, hact]
-            rw [hP, hB]
-            unfold Station.enqueue at henq
-            rcases Station.updatePlug_ok henq with ⟨hnone, rfl⟩ | ⟨cs, cs', hcs, hop, rfl⟩
-            · have hinv' : Inv02W w.sim (cntP w.sim L) (cntQ (veh' :: L)) (cntB L) := by
-                refine Inv02W_congrOn ?_ (fun _ _ => rfl) hinv
-                intro st2 hst2 cs2 hcs2
-                refine ⟨rfl, ?_⟩
-                simp only [cntQ, List.countP_cons, queuesFor, hact]
-                have : (sid == st2.id && cid == cs2.id) = false := by
-                  by_cases hs : st2.id = sid
-                  · have := station_unique hwf hst hst2 hs
-                    subst this
-                    have hne := lookup_none hnone cs2 hcs2
-                    have : (cid == cs2.id) = false := by simpa using (Ne.symm hne)
-                    simp [this]
-                  · have : (sid == st2.id) = false := by simpa using (Ne.symm hs)
-                    simp [this]
-                simp [this]
-              exact Inv02W_samePlugs hmem rfl rfl hs1 hb1 hinv'
-            · cases hop
-              obtain ⟨hcmem, hcid⟩ := plug?_some hcs
-              refine Inv02W_setPlug (cs := cs) (cs' := cs.incEnq) hmem hcmem rfl hs1 hb1 ?_ ?_ hinv
-              · intro a c hab
-                refine ⟨rfl, ?_⟩
-                simp only [cntQ, List.countP_cons, queuesFor, hact]
-                have : (sid == a && cid == c) = false := by
-                  rw [hid, hcid] at hab
-                  by_cases h1 : sid = a
-                  · by_cases h2 : cid = c
-                    · exact absurd ⟨h1.symm, h2.symm⟩ hab
-                    · simp [h2]
-                  · simp [h1]
-                simp [this]
-              · have := hinv.1 st hmem cs hcmem
-                simp only [cntQ, List.countP_cons, queuesFor, hact, hid, hcid, beq_self_eq_true,
-                  Bool.and_self, if_true, ChargerState.incEnq] at this ⊢
-                constructor
-                · exact this.1
-                · omega
+          · split at h
+            · cases h
+            · simp only [Outcome.bind_eq, Outcome.bind_eq_ok, Outcome.pure_eq] at h
+              obtain ⟨st', henq, s1, h0, s2, h1, h2⟩ := h
+              cases h2
+              obtain ⟨_, hs1, hb1, hv1, _, _, _⟩ := Sim.modifyStation_fields h0
+              obtain ⟨hmem, hid⟩ := station?_some hst
+              refine finish_enter hv1 ?_ (baseStation_same hb1) h1
+              intro veh' hact
+              rw [Inv02On_iff_W] at hinv ⊢
+              have hP : cntP s1 (veh' :: L) = cntP w.sim L := by
+                funext a c; simp [cntP, holdsPlug_congr (baseStation_same hb1), holdsPlug, hact]
+              have hB : cntB (veh' :: L) = cntB L := by funext a; simp [cntB, holdsStall, hact]
+              rw [hP, hB]
+              unfold Station.enqueue at henq
+              rcases Station.updatePlug_ok henq with ⟨hnone, rfl⟩ | ⟨cs, cs', hcs, hop, rfl⟩
+              · have hinv' : Inv02W w.sim (cntP w.sim L) (cntQ (veh' :: L)) (cntB L) := by
+                  refine Inv02W_congrOn ?_ (fun _ _ => rfl) hinv
+                  intro st2 hst2 cs2 hcs2
+                  refine ⟨rfl, ?_⟩
+                  simp only [cntQ, List.countP_cons, queuesFor, hact]
+                  have : (sid == st2.id && cid == cs2.id) = false := by
+                    by_cases hs : st2.id = sid
+                    · have := station_unique hwf hst hst2 hs
+                      subst this
+                      have hne := lookup_none hnone cs2 hcs2
+                      have : (cid == cs2.id) = false := by simpa using (Ne.symm hne)
+                      simp [this]
+                    · have : (sid == st2.id) = false := by simpa using (Ne.symm hs)
+                      simp [this]
+                  simp [this]
+                exact Inv02W_samePlugs hmem rfl rfl hs1 hb1 hinv'
+              · cases hop
+                obtain ⟨hcmem, hcid⟩ := plug?_some hcs
+                refine Inv02W_setPlug (cs := cs) (cs' := cs.incEnq) hmem hcmem rfl hs1 hb1 ?_ ?_ hinv
+                · intro a c hab
+                  refine ⟨rfl, ?_⟩
+                  simp only [cntQ, List.countP_cons, queuesFor, hact]
+                  have : (sid == a && cid == c) = false := by
+                    rw [hid, hcid] at hab
+                    by_cases h1 : sid = a
+                    · by_cases h2 : cid = c
+                      · exact absurd ⟨h1.symm, h2.symm⟩ hab
+                      · simp [h2]
+                    · simp [h1]
+                  simp [this]
+                · have := hinv.1 st hmem cs hcmem
+                  simp only [cntQ, List.countP_cons, queuesFor, hact, hid, hcid, beq_self_eq_true,
+                    Bool.and_self, if_true, ChargerState.incEnq] at this ⊢
+                  constructor
+                  · exact this.1
+                  · omega
   case chargingBase b cid =>
     split at h
     · cases h
